@@ -1,6 +1,7 @@
 package an
 
 import (
+	"regexp"
 	"fmt"
 	"go/token"
 	"go/types"
@@ -585,7 +586,43 @@ func c19OptionsReadAtUse(p *Prog, r *Report, R string) {
 			}
 			n++
 			if _, body := loopBody(u.Block()); body != nil {
-				r.OK(R, p.FuncName(fn)+"/"+k+"@loop", p.InstrPos(u), "read inside the loop")
+				// inside the loop — but not on the far side of the loop's blocking receive from
+				// its use: a value read before `m := p.RecvMsg()` and applied to m is the one
+				// in force when the previous message was done, not when this one arrived
+				stale := ""
+				for b := range body {
+					for _, bi := range b.Instrs {
+						c := CallOf(bi)
+						if c == nil || !c.IsInvoke() || (c.Method.Name() != "RecvMsg" && c.Method.Name() != "Recv") {
+							continue
+						}
+						if !InstrDominates(u, bi) {
+							continue
+						}
+						// is the loaded value used after the receive?
+						var uses func(v ssa.Value, d int) bool
+						seenU := map[ssa.Value]bool{}
+						uses = func(v ssa.Value, d int) bool {
+							if d > 5 || seenU[v] || v.Referrers() == nil {
+								return false
+							}
+							seenU[v] = true
+							for _, ref := range *v.Referrers() {
+								if _, isPhi := ref.(*ssa.Phi); !isPhi && InstrDominates(bi, ref) {
+									return true
+								}
+								if rv, ok := ref.(ssa.Value); ok && uses(rv, d+1) {
+									return true
+								}
+							}
+							return false
+						}
+						if uses(u, 0) {
+							stale = p.InstrPos(bi)
+						}
+					}
+				}
+				r.Check(stale == "", R, p.FuncName(fn)+"/"+k+"@loop", p.InstrPos(u), "read inside the loop, on the same side of the blocking receive as its use", "the option field "+k+" is read before the loop's blocking receive (at "+stale+") and applied to the message that receive returns: the first message after SetOption is judged by the old value")
 				return
 			}
 			// read outside any loop: fine unless the value is used inside a loop
@@ -677,3 +714,122 @@ func c19OptionsReadAtUse(p *Prog, r *Report, R string) {
 	}
 	r.Count("c19.option_reads_in_goroutines", n)
 }
+
+// optionTypeAgreement: the websocket transport keeps validated option values in a map and
+// reads them back with type assertions.  Every such read asserts the type under which the
+// option was validated and stored (`set`): a read as another type never succeeds, so with the
+// comma-ok form the option silently never takes effect (a receive limit that is never applied).
+func optionTypeAgreement(p *Prog, r *Report, R string) {
+	r.Describe(R, "ws: an option value is read back from the option map as the type it was validated and stored as (a mismatching comma-ok assertion silently disables the option)")
+	set := p.Func("transport/ws", "options", "set")
+	if set == nil {
+		r.Bad(R, "anchor:transport/ws.(options).set", "-", "ANCHOR-MISSING: function transport/ws.(options).set not found")
+		return
+	}
+	stored := map[string]types.Type{}
+	EachInstr(set, func(in ssa.Instruction) {
+		ta, ok := in.(*ssa.TypeAssert)
+		if !ok {
+			return
+		}
+		for _, g := range p.GuardStrings(in) {
+			if strings.HasPrefix(g, `arg1 == "`) {
+				stored[strings.TrimPrefix(g, "arg1 == ")] = ta.AssertedType
+			}
+		}
+	})
+	n := 0
+	for _, fn := range p.Funcs {
+		if rel, _ := p.FuncRel(fn); rel != "transport/ws" || fn == set {
+			continue
+		}
+		EachInstr(fn, func(in ssa.Instruction) {
+			ta, ok := in.(*ssa.TypeAssert)
+			if !ok {
+				return
+			}
+			key := ""
+			src := ta.X
+			if ex, ok := src.(*ssa.Extract); ok {
+				src = ex.Tuple
+			}
+			switch x := src.(type) {
+			case *ssa.Call:
+				if sc := x.Call.StaticCallee(); sc != nil && sc.Name() == "get" && len(x.Call.Args) == 2 {
+					key = Desc(x.Call.Args[1])
+				}
+			case *ssa.Lookup:
+				if _, isMap := x.X.Type().Underlying().(*types.Map); isMap {
+					key = Desc(x.Index)
+				}
+			}
+			if _, known := stored[key]; !known {
+				return
+			}
+			n++
+			want := stored[key]
+			r.Check(types.Identical(ta.AssertedType, want), R, p.FuncName(fn)+"/"+strings.Trim(key, `"`), p.InstrPos(in), "read as "+typeShort(want), "the option "+key+" is validated and stored as "+typeShort(want)+" but read back as "+typeShort(ta.AssertedType)+": the assertion never succeeds and the configured value is never applied")
+		})
+	}
+	r.Count("c19.ws_option_reads", n)
+	r.Floor(R, "c19.ws_option_reads", 3)
+}
+
+// gatedOptionFlags: in the IPC listener an option value takes effect in Listen only under a
+// flag (`if l.chown { os.Chown(path, l.owner, l.group) }`).  Which flag gates which value is
+// read off Listen; SetOption must then raise exactly that flag wherever it stores one of the
+// values it gates — raising another flag applies a different setting (with its zero value)
+// and leaves the accepted one without effect.
+func gatedOptionFlags(p *Prog, r *Report, R string) {
+	r.Describe(R, "ipc listener: every option value that Listen applies under a flag is stored together with that very flag set to true")
+	if p.Conf.GOOS == "windows" {
+		return // named pipes: no file ownership or mode
+	}
+	q := NewQ(p, r)
+	ls := q.Fn(R, "transport/ipc", "listener", "Listen")
+	so := q.Fn(R, "transport/ipc", "listener", "SetOption")
+	if !ls.OK() || !so.OK() {
+		return
+	}
+	gate := map[string]string{} // value field -> flag field
+	for _, e := range ls.All() {
+		if e.Kind != "call" || !strings.HasPrefix(e.What, "os.Ch") {
+			continue
+		}
+		flag := ""
+		for _, g := range e.Guard {
+			if strings.HasPrefix(g, "recv.") && !strings.ContainsAny(g, " (![") {
+				flag = g
+			}
+		}
+		if flag == "" {
+			continue
+		}
+		for _, a := range e.Args {
+			for _, m := range recvFieldRe.FindAllString(a, -1) {
+				if m != flag && m != "recv.addr" {
+					gate[m] = flag
+				}
+			}
+		}
+	}
+	n := 0
+	for _, e := range so.Ev("store", "recv.*") {
+		flag, gated := gate[e.What]
+		if !gated {
+			continue
+		}
+		n++
+		ok := false
+		for _, f := range so.Ev("store", flag) {
+			if f.Args[0] == "true" && f.In.Block() == e.In.Block() {
+				ok = true
+			}
+		}
+		r.Check(ok, R, "SetOption/"+e.What+"->"+flag, p.InstrPos(e.In), e.What+" stored together with "+flag+" = true", "SetOption stores "+e.What+" without setting "+flag+", the flag under which Listen applies it: the accepted value has no effect (and whatever flag is raised instead applies another setting with its zero value)")
+	}
+	r.Count("c19.gated_option_values", n)
+	r.Floor(R, "c19.gated_option_values", 3)
+}
+
+var recvFieldRe = regexp.MustCompile(`recv\.[A-Za-z_][A-Za-z0-9_]*`)
